@@ -995,6 +995,7 @@ class Trace:
         self.cb_seen = []
         self.faulted = False
         self.hard_fault = False  # a fault other than a failed sync (those end the worker or drop callbacks)
+        self.io_fault = False    # some system call failed (as opposed to: a callback was dropped)
         self.sync_failed = False
         self.fails = []
         self.live = {}         # index -> (term, chunk id)
@@ -1032,6 +1033,7 @@ class Trace:
             else:
                 self.faulted = True
                 self.hard_fault = True
+                self.io_fault = True
         elif k == "sync":
             if t[-1] == "ok":
                 f = self.files.setdefault(int(t[3]), dict(written=0, synced=0, linked=True, base=0))
@@ -1039,6 +1041,7 @@ class Trace:
             else:
                 self.faulted = True
                 self.sync_failed = True
+                self.io_fault = True
         elif k == "trunc":
             f = self.files.setdefault(int(t[3]), dict(written=0, synced=0, linked=True, base=0))
             f["written"] = int(t[4])
@@ -1051,6 +1054,7 @@ class Trace:
             else:
                 self.faulted = True
                 self.hard_fault = True
+                self.io_fault = True
         elif k == "cb":
             hooks.get("cb", lambda *_: None)(self, int(t[2]), t[3] == "ok")
             self.cb_seen.append((int(t[2]), t[3]))
@@ -1063,6 +1067,7 @@ class Trace:
         elif k == "exit" and t[-1] == "fail":
             self.faulted = True
             self.hard_fault = True
+            self.io_fault = True
 
     def run(self, hooks):
         for i, g in enumerate(self.gs):
@@ -1194,8 +1199,14 @@ def oracle_c04(script, ig, mg):
     tr = Trace(script, ig).run({"cb": on_cb, "group": on_group})
     if tr.fails:
         return tr.fails
-    # exactly once when nothing failed and the worker ran to idle at the end
-    if not tr.faulted and tr.prim and ig and ig[-1].line.startswith("wst idle"):
+    # no system call failed (incl. a blocked rotation on the caller thread): no callback may be dropped uninvoked
+    caller_fault = any(e.endswith(" fail") for g in ig for e in g.evs if e.startswith("ev "))
+    if not tr.io_fault and not caller_fault:
+        lost = [c for c, k in tr.cb_seen if k == "dropped"]
+        if lost:
+            return [("callback-dropped-although-nothing-failed", {"dropped": lost})]
+    # exactly once when nothing failed and the worker ran to idle (or was joined by drop) at the end
+    if not tr.faulted and tr.prim and ig and (ig[-1].line.startswith("wst idle") or ig[-1].line == "dropped"):
         missing = [c for c in tr.flush_order if not any(x == c for x, _ in tr.cb_seen)]
         if missing:
             return [("callback-never-invoked", {"missing": missing})]
@@ -1247,8 +1258,9 @@ def oracle_c08(script, ig, mg):
             known.append(int(m.group(1)))
             on_disk = [int(p.split(":")[0]) for p in g.line.split()[1:]]
             first_closed = re.search(r"closed=\((\d+):\d+:\d+:\d+:\[vote=\S+ last=(\S+) ", st)
-            if first_closed and tr.purges and first_closed.group(2) != "-":
-                cl = tuple(int(x) for x in first_closed.group(2).split(","))
+            if first_closed and tr.purges:
+                # a closed chunk that closed without any entry ever appended (last = -) holds nothing at all
+                cl = tuple(int(x) for x in first_closed.group(2).split(",")) if first_closed.group(2) != "-" else (-1, -1)
                 if cl <= tr.purges[-1][0]:
                     cid0 = int(first_closed.group(1))
                     # closed by a LATER call than the purge that covers it: only the next purge
@@ -1440,7 +1452,11 @@ def scripts_c04(tier, rng):
                         flush_prob=(1, 2), weights=dict(append=40, purge=6, truncate=4, ud=3, vote=6, commit=6))
         lines = with_stat_after_writes(g.script())
         lines.insert(2, "stat")
-        lines += ["flush 9998", "widle", "stat", "dir"]
+        if i % 5 == 3:
+            # the store is dropped right after the last flush: the join must finish the queued requests
+            lines += ["flush 9998", "drop"]
+        else:
+            lines += ["flush 9998", "widle", "stat", "dir"]
         out.append((f"c04_{i}", lines))
         for k, v in g.stats.items():
             stats[k] = stats.get(k, 0) + v
